@@ -336,17 +336,17 @@ class SurfGeo:
             f = self.corner_f[c]
             fd = self.face(f)
             if custom is None and not fd["ok"]:
-                return None, "face"
+                return None, "nonplanar_or_nonconvex"
             if mode == "uniform":
                 w = 1.0
             elif mode == "area":
                 if not fd["ok"]:
-                    return None, "face"
+                    return None, "nonplanar_or_nonconvex"
                 w = fd["area"]
             else:
                 cd = self.corner(c)
                 if not cd["ok"]:
-                    return None, "corner"
+                    return None, "ill_corner"
                 w = cd["angle"]
             g = custom[f] if custom is not None else fd["normal"]
             for k in range(3):
